@@ -2,13 +2,13 @@
 package props
 
 import (
-	"sync"
 	"encoding/json"
 	"errors"
 	"fmt"
 	"io"
 	"sort"
 	"strings"
+	"sync"
 
 	smtp "github.com/emersion/go-smtp"
 
